@@ -423,6 +423,39 @@ theorem rdm_width_leaf {F : Type} [Add F] [Sub F] [Mul F] [Div F] [Zero F] [One 
     (calcRdm d ev sub).length = rdmWidth ev := by
   simp [calcRdm, rdmWidth, Rsa.Gen.C19.rdmWidth, Rsa.pairsOf_length]
 
+/-- round 4 — **the pre-allocated table of the chunked branch stores the RDM values unchanged**:
+    the source allocates it as `np.zeros(shape)` with no `dtype` / further argument (regenerated
+    leaf `bufferExtraArgs`), i.e. as numpy's default float64 buffer -/
+theorem buffer_dtype_leaf : Rsa.Gen.C19.bufferExtraArgs = 0 := by
+  rfl
+
+/-- so, **whatever element conversion a differently typed buffer would apply** (`conv` arbitrary:
+    truncation to integers for int16 data, rounding to single precision, …), **whatever the split
+    points and the number of centres**, the table `get_searchlight_RDMs` builds is the list of the
+    directly computed rows: chunked = unchunked, value for value.  (With
+    `np.zeros(shape, dtype=data_2d.dtype)` the leaf is `1`, `bufferStore conv = conv`, and this
+    statement is false for integer data — it then no longer compiles.) -/
+theorem table_rows_stored_unchanged {γ : Type} (conv : γ → γ) (zero : γ) (f : Nat → γ) (n : Nat)
+    (pts : List Nat) :
+    slTableStore conv zero f n pts = (List.range n).map f := by
+  have hid : bufferStore conv = id := by
+    unfold bufferStore
+    rw [if_pos buffer_dtype_leaf]
+  have h : slTableStore conv zero f n pts = slTable zero f n pts := by
+    unfold slTableStore slTable
+    simp only [hid, List.map_id_fun, id_eq]
+  rw [h, table_rows_any_points]
+
+/-- non-vacuity: 1002 centres (chunked), numpy's own split points, a truncating conversion
+    (`conv = fun _ => 0`, as far from the identity as possible): rows are still the direct ones -/
+example : (slTableStore (fun _ => 0) 0 (fun c => c + 7) 1002 (linspacePts 1002)).getD 1001 0 = 1008 := by
+  rw [table_rows_stored_unchanged]; simp
+
+/-- and what the theorem excludes: with a converting buffer (`conv` applied) the chunked table is
+    *not* the direct one — this is the table a `dtype=` argument would produce -/
+example : (splitIdx 3 [1, 2]).foldl (fun t ch => assignRows t ch ((ch.map (fun c => c + 7)).map (fun _ => 0)))
+    (List.replicate 3 0) ≠ (List.range 3).map (fun c => c + 7) := by decide
+
 /-! ### 5. parallel evaluation -/
 
 /-- what `joblib.Parallel` promises (its documented contract, not modelled): whatever the
